@@ -5,5 +5,92 @@ C12 — model of Steel's reader and writer (entry point of the model files).
   `Parse.lean`  the datum parser `(read)` uses + conversion to values     `read : Text → Except ReadErr (List Datum)`
   `Write.lean`  `Display for SteelVal` as used by `(write d)`             `write : Datum → Text`
   `GenUnicode.lean` (generated) the escape table of Rust's `{:?}`
+
+This file adds the *well-formedness class* `WF` of the round-trip theorem: the data for which the
+code that exists does satisfy `read (write d) = [d]`.  Each restriction corresponds to a way in
+which the real writer / reader pair fails (replayed on the real code, see KNOWN_FINDINGS):
+
+  * symbols: the writer prints the bare name, so the name must lex as one plain identifier:
+    non-empty, made of characters that `read_word` keeps, not starting like a number, `#` form or
+    `|`, and not one of the spellings the lexer maps to another symbol (`defn`, `fn`, `λ`)   [K12a, K12b];
+  * lists, pairs, vectors: the first element is not the symbol `unquote`, `unquote-splicing` or
+    `quasiquote` (the reader's quasi-quotation bookkeeping renames such heads)               [K12c];
+  * pairs: the cdr is not a list (`cons` onto a list gives a list - an invariant of Steel values);
+  * rationals in lowest terms with denominator ≥ 2, bytes < 256 (invariants of Steel values);
+  * no inexact / complex numbers (outside the model);
+  * nesting depth ≤ 128 (the writer prints `...` below that)                                  [K12d].
+Strings and characters are unrestricted: every sequence of Unicode scalar values.
 -/
 import SteelVerif.C12.Write
+namespace SteelVerif.C12
+
+/-- a character that `read_word` keeps and that starts no other token inside a word -/
+def isPlainChar (c : Char) : Bool := !isWordStop c && c != '\\' && c != '|'
+
+def symStartOK (c : Char) : Bool :=
+  isPlainChar c && c != '#' && c != '+' && c != '-' && c != '.' && !isDigit c
+
+/-- spellings that the lexer turns into the tokens `define` / `lambda` -/
+def isAliased (s : Text) : Bool := s == t!"defn" || s == t!"fn" || s == t!"λ"
+
+/-- symbol names that the writer prints readably -/
+def symOK : Text → Bool
+  | [] => false
+  | c :: cs => symStartOK c && cs.all isPlainChar && !isAliased (c :: cs)
+
+/-- the symbols that steer the reader's quasi-quotation bookkeeping when they head a list -/
+def isQQ : Datum → Bool
+  | .sym s => s == symUnquote || s == symQuasi || s == symSplicing
+  | _ => false
+
+def headOK : List Datum → Bool
+  | [] => true
+  | x :: _ => !isQQ x
+
+def isListDatum : Datum → Bool
+  | .list _ => true
+  | _ => false
+
+mutual
+def WF : Datum → Bool
+  | .int _ => true
+  | .rat n d => decide (2 ≤ d) && Nat.gcd n.natAbs d == 1
+  | .bool _ => true
+  | .chr _ => true
+  | .str _ => true
+  | .sym s => symOK s
+  | .list xs => WFs xs && headOK xs
+  | .pair a d => WF a && WF d && !isQQ a && !isListDatum d
+  | .vec xs => WFs xs && headOK xs
+  | .bytes bs => bs.all (fun b => decide (b < 256))
+  | .flo _ => false
+  | .other _ => false
+def WFs : List Datum → Bool
+  | [] => true
+  | x :: xs => WF x && WFs xs
+end
+
+mutual
+/-- nesting depth as the writer counts it (an atom at the root has depth 1) -/
+def Datum.depth : Datum → Nat
+  | .list xs => 1 + depths xs
+  | .pair a d => 1 + max a.depth d.depth
+  | .vec xs => 1 + depths xs
+  | _ => 1
+def depths : List Datum → Nat
+  | [] => 0
+  | x :: xs => max x.depth (depths xs)
+end
+
+/-- the guard of the round-trip theorem -/
+def WFD (d : Datum) : Prop := WF d = true ∧ d.depth ≤ 128
+
+instance (d : Datum) : Decidable (WFD d) := by unfold WFD; exact inferInstance
+
+/-- the quotation forms are ordinary two-element lists (that is how Steel represents and prints them) -/
+def Datum.quote (d : Datum) : Datum := .list [.sym t!"quote", d]
+def Datum.quasiquote (d : Datum) : Datum := .list [.sym t!"quasiquote", d]
+def Datum.unquote (d : Datum) : Datum := .list [.sym t!"unquote", d]
+def Datum.unquoteSplicing (d : Datum) : Datum := .list [.sym t!"unquote-splicing", d]
+
+end SteelVerif.C12
